@@ -17,7 +17,8 @@ import (
 var escapes = []string{"\x1b[0m", "\x1b[K", "\x1b[?25h", "\x1b[1;32m", "\x1b]0;t\x07",
 	"\x1b[38;5;208m", "\x1b[1;37;41m", "\x1b[48;2;10;20;30m", "\x1b[0;1;4;7m", "\x1b[1;2;3;4;5;6m", "\x1b[m", "\x1b[01;34m", "\x1b[;5m",
 	"\x1b[10;20H", "\x1b[24;1H", "\x1b[2J", "\x1b[1A", "\x1b[999;999r", "\x1b[6n", "\x1b[?1049h", "\x1b[?2004h", "\x1b[?7l",
-	"\x1b(B", "\x1b=", "\x1b>", "\x1bM", "\x1b]2;title\x07"}
+	"\x1b(B", "\x1b=", "\x1b>", "\x1bM", "\x1b]2;title\x07",
+	"\x1b7", "\x1b8"} // save / restore cursor (DECSC / DECRC): complete two-character sequences, whatever letter follows
 
 // concretise maps abstract symbols (spec/alphabet.json) to bytes.
 func concretise(s string, rng *rand.Rand) string { return concretiseMax(s, rng, 0) }
